@@ -122,12 +122,12 @@ package region
 //@   modifies nothing
 //@   panics never[C11]
 //@   ensures[C11,C02] r0 == nil ==> typeis(msg, "*pb.MultiResponse") && multiRespOK(m, cast(msg, "*pb.MultiResponse"))
-//@   loop 1 invariant len(seen) == len(m.calls)
-//@   loop 1 invariant forall(k, 0 <= k && k < i, rarOK(m, rars[k]))
-//@   loop 2 invariant len(seen) == len(m.calls)
-//@   loop 3 invariant len(seen) == len(m.calls)
-//@   loop 3 invariant forall(k, 0 <= k && k < idx3, roeOK(m, rar.GetResultOrException()[k]))
-//@   loop 4 invariant len(seen) == len(m.calls)
+//@   loop 1 invariant[C11] len(seen) == len(m.calls)
+//@   loop 1 invariant[C11] forall(k, 0 <= k && k < i, rarOK(m, rars[k]))
+//@   loop 2 invariant[C11] len(seen) == len(m.calls)
+//@   loop 3 invariant[C11] len(seen) == len(m.calls)
+//@   loop 3 invariant[C11] forall(k, 0 <= k && k < idx3, roeOK(m, rar.GetResultOrException()[k]))
+//@   loop 4 invariant[C11] len(seen) == len(m.calls)
 
 //@ func region.(*multi).DeserializeCellBlocks
 //@   requires typeis(msg, "*pb.MultiResponse")
@@ -185,6 +185,11 @@ package region
 // context has expired and whatever kind of call it is (C18)
 //@   ensures[C18] old(len(c.sent)) - len(c.sent) == old(ghostat("net", c)) - ghostat("net", c)
 //@   ensures[C18] len(c.sent) == old(len(c.sent)) || len(c.sent) == old(len(c.sent)) - 1
+// whoever takes a call out of the sent table completes it (C03): on every path of the reader the call removed is handed
+// to returnResult exactly once (ghost completed), unless its own context has already ended
+//@   at call returnResult#1 ghost completed[rpc] == ghostat("completed", rpc) + 1
+//@   at call returnResult#2 ghost completed[rpc] == ghostat("completed", rpc) + 1
+//@   ensures[C03] forall(k, old(haskey(c.sent, k)) && !haskey(c.sent, k) ==> ghostat("completed", old(c.sent[k])) == old(ghostat("completed", c.sent[k])) + 1 || ghostat("ctxdone", old(c.sent[k]).Context()) == 1)
 
 //@ func region.freeMulti
 //@   requires m != nil
